@@ -235,6 +235,16 @@ def run(R, tier):
     from . import c12
     c12.check_queues(R, "R13.10", tier)
 
+    # ---- R13.13 the SYSTem:ERRor tree the macro declares (sa/rules/treedecl.py) ---------------------------------------------------
+    from . import treedecl as TD
+    try:
+        tree, tb = TD.witness_tree()
+        R.configs.append("witness")
+        TD.check_subtree(R, "R13.13", tree, [b"SYSTem", b"ERRor"], [(b"NEXT", "Leaf", True, "SystErrNextCommand", None), (b"ALL", "Leaf", False, "SystErrAllCommand", None), (b"COUNt", "Leaf", False, "SystErrCountCommand", None)], where=tb.span)
+        TD.check_subtree(R, "R13.13", tree, [], [(b"*ESR", "Leaf", False, "EsrCommand", None), (b"*OPC", "Leaf", False, "OpcCommand", None), (b"*CLS", "Leaf", False, "ClsCommand", None), (b"SYSTem", "Branch", False, None, None)], where=tb.span)
+    except facts.AnchorLost as e:
+        R.anchor_lost("R13.13", str(e))
+
     # ---- R13.2 documented wiring ------------------------------------------------------------------------------------------
     check_wiring(R, "R13.2")
 
